@@ -32,7 +32,7 @@ def strat(tier):
         "noise": gen.rounded(0.02, 0.5, 3), "noise2": gen.rounded(0.02, 0.5, 3),
         "channels": st.sampled_from([1, 1, 2]),
         "resid_seed": st.integers(0, 2 ** 31 - 1), "resid_amp": st.sampled_from([0.0, 0.01, 0.1]),
-        "mode": st.sampled_from(["inside", "inside", "on_bound", "outside", "negative_radius", "overlap"]),
+        "mode": st.sampled_from(["inside", "inside", "on_bound", "outside", "negative_radius", "overlap", "nan_value"]),
         "shift": st.lists(st.floats(-1, 1), min_size=8, max_size=8),
         "constraint": st.one_of(st.none(), st.floats(0.0, 1.0), st.sampled_from([0.0, 0.1, 1.0])),
         "pixels": st.one_of(st.none(), st.floats(0.05, 1.0)), "pix_seed": st.integers(0, 2 ** 31 - 1),
@@ -209,6 +209,9 @@ def run(case):
         x = bounded_names[-1]; d = descs[key_of[x]]
         hi = d[2] if d[0] == "uniform" else d[4]
         v[x] = hi + 0.01 * abs(hi) + 1e-6
+    elif mode == "nan_value" and bounded_names:
+        # not-a-number is in no prior's support
+        v[bounded_names[len(bounded_names) // 2]] = float("nan")
     elif mode == "negative_radius":
         rn = [x for x in names if key_of[x] in ("r", "r2")]
         gauss = [x for x in rn if descs[key_of[x]][0] == "gaussian"]
@@ -225,6 +228,8 @@ def run(case):
     vec = [v[x] for x in names]
     # ---- reference log-prior
     ref_prior = sum(ref_lnprob(descs[key_of[x]], v[x]) for x in names)
+    if any(isinstance(v[x], float) and math.isnan(v[x]) for x in names):
+        ref_prior = -math.inf
     radii = {"r": v.get(next((x for x in names if key_of[x] == "r"), None), t["r"])}
     r1 = next((v[x] for x in names if key_of[x] == "r"), None)
     if r1 is None:
@@ -232,7 +237,7 @@ def run(case):
     r2 = next((v[x] for x in names if key_of[x] == "r2"), None)
     if two and r2 is None:
         r2 = r2_p if not isinstance(r2_p, prior.Prior) else t["r"] * 0.8
-    invalid = r1 < 0 or (two and r2 < 0)
+    invalid = r1 < 0 or bool(two and r2 < 0)
     x1 = next((v[x] for x in names if key_of[x] == "x"), x_p if not isinstance(x_p, prior.Prior) else cx)
     z1 = next((v[x] for x in names if key_of[x] == "z"), z_p if not isinstance(z_p, prior.Prior) else t["z"])
     violates = False
